@@ -352,10 +352,10 @@ impl Runner {
             let rest = mach.remaining();
             let mut leftover = String::new();
             if rest != [m::Tok::Cs("relax".into())] {
-                // Under the deviation that ends a fil unit at a blank, the rest of the unit stays behind; when that is
+                // Something of the statement stays behind (TeX ended a constant at `8` after `'7`, a keyword was not
+                // one, or - under the deviation that ends a fil unit at a blank - the rest of the unit): when that is
                 // nothing but characters, the engine typesets them before the read-back and the prediction is complete.
-                let chars_only = dev.fil_l_no_blank_skip
-                    && rest.last() == Some(&m::Tok::Cs("relax".into()))
+                let chars_only = rest.last() == Some(&m::Tok::Cs("relax".into()))
                     && rest[..rest.len() - 1].iter().all(|t| matches!(t, m::Tok::Letter(_) | m::Tok::Other(_) | m::Tok::Space));
                 if !chars_only {
                     return Err(m::Ood("tokens left over after the statement".into()));
